@@ -83,7 +83,10 @@ theorem step_inv (b : Bag) (h : Inv b) (op : Op) (hw : OpWF b op) : Inv (stepOp 
     simp only [stepOp]
     split
     · exact h
-    · exact inv_trimSequences n fs b h
+    · split
+      · exact h
+      · rename_i r hr
+        exact inv_trimSequences n fs b h r hr
   | autoAlpha => exact h.congr rfl rfl rfl
 
 /-- **Every reachable state satisfies the invariant**: induction over histories of any length, from
